@@ -511,6 +511,8 @@ def run(chk):
     rule_mro(chk)
     rule_safeunicode(chk)
     rule_norecursion(chk)
+    common.rule_instance_state(chk, "C03", [("_action", "Action"), ("_errors", "ErrorExtraction")])
+    common.rule_defaults(chk, "C03", modules=("_action", "_errors", "_traceback", "_util"))
     # an action spanning a yield of a decorated generator gets its end message only if close()/throw()
     # are forwarded into the generator inside its own context
     from . import c15
@@ -519,4 +521,5 @@ def run(chk):
         gv, resumers = c15.rule_inside(chk, cvar)
         if resumers and resumers[0] is not c15._wrapper(chk)[1]:
             c15.rule_transparent(chk, cvar, gv, resumers)
-    common.rule_forwarding(chk, "C03", keys=[("_action", "Action.finish"), ("_action", "Action.run"), ("_traceback", "write_traceback"), ("_traceback", "_writeTracebackMessage"), ("_traceback", "writeFailure")])
+    common.rule_forwarding(chk, "C03", keys=[("_action", "Action.finish")
+, ("_action", "Action.run"), ("_traceback", "write_traceback"), ("_traceback", "_writeTracebackMessage"), ("_traceback", "writeFailure")])
